@@ -206,6 +206,12 @@ def pages(thorough):
         for kind in ('peaky', 'none', 'diffuse') if thorough else ('peaky', 'none'):
             out.append((((a, b),), kind, 0))
             out.append((((a,), (b,)), kind, 0))
+    # script changes inside one block (the conversion applies to Arabic-script lines only), words with edge delimiters
+    mixed = [('اب', 'ab, cab.'), ('ab, cab.', 'اب'), ('اب ab', 'a: b.'), ('a. b', 'اب', 'c, a'), ('اب', 'ba', 'اب', '.ab')]
+    for m in mixed:
+        for kind in LOGIT_KINDS:
+            out.append(((m,), kind, 0))
+            out.append((tuple((t,) for t in m), kind, 0))
     out.append(((), 'peaky', 0))
     out.append((((), ('a b',)), 'peaky', 0))
     return out
